@@ -367,7 +367,7 @@ type vbReplayDel struct {
 }
 
 type vbReplay struct {
-	Mode    string        `json:"mode"` // trial | conc | cid
+	Mode    string        `json:"mode"` // trial | conc | cid | sc
 	Layout  string        `json:"layout,omitempty"`
 	Variant int           `json:"variant,omitempty"`
 	Height  uint64        `json:"height,omitempty"`
@@ -377,6 +377,8 @@ type vbReplay struct {
 	Conc    *vbConcCfg    `json:"conc,omitempty"`
 	History []string      `json:"history,omitempty"`
 	CID     *vbCIDCase    `json:"cid_case,omitempty"`
+	SC      *vbSCScenario `json:"sc_scenario,omitempty"`
+	Choices []int         `json:"choices,omitempty"`
 }
 
 func vbMkReplay(w *vbWorld, pending []vbID, dels []vbDelivery, reset bool) vbReplay {
